@@ -242,13 +242,14 @@ func refsOf(e *engine, id wasm.ModuleID) int       { return e.compiledRefs[id] }
 // tail calls when close-on-context-done is on.
 //@ prop C07
 //@ func (c *compiler) emit(op unionOperation)
-//@   ensures[appended-unless-unreachable] !old(c.unreachableState.on) && !old(op.Kind == operationKindDrop && int64(op.U1) == -1) ==> len(c.result.Operations) == old(len(c.result.Operations))+1 && c.result.Operations[len(c.result.Operations)-1].Kind == old(op.Kind)
+//@   ensures[appended-unless-unreachable] !old(c.unreachableState.on) && !old(op.Kind == operationKindDrop && int64(op.U1) == -1) ==> len(c.result.Operations) == old(len(c.result.Operations))+1 && c.result.Operations[len(c.result.Operations)-1].Kind == old(op.Kind) && c.result.Operations[len(c.result.Operations)-1].B1 == old(op.B1) && c.result.Operations[len(c.result.Operations)-1].B2 == old(op.B2) && c.result.Operations[len(c.result.Operations)-1].B3 == old(op.B3) && c.result.Operations[len(c.result.Operations)-1].U1 == old(op.U1) && c.result.Operations[len(c.result.Operations)-1].U2 == old(op.U2) && c.result.Operations[len(c.result.Operations)-1].U3 == old(op.U3)
 //@   ensures[earlier-operations-kept] len(c.result.Operations) >= old(len(c.result.Operations)) && forall i int :: 0 <= i && i < old(len(c.result.Operations)) ==> c.result.Operations[i].Kind == old[operationKind](c.result.Operations[i].Kind)
 //@   modifies c.result.Operations, c.result.IROperationSourceOffsetsInWasmBinary, elems(c.result.Operations), elems(c.result.IROperationSourceOffsetsInWasmBinary)
 
 // (operand type bookkeeping of the compiler: assumed to touch only the type stack and the position)
 //@ func (c *compiler) applyToStack(opcode wasm.Opcode) (index uint32, err error)
 //@   trusted
+//@   ensures opcode == wasm.OpcodeMiscPrefix ==> c.pc == old(c.pc)
 //@   modifies c.stack, c.stackLenInUint64, c.pc, elems(c.stack)
 //@ func (c *compiler) getFrameDropRange(frame *controlFrame, isEnd bool) inclusiveRange
 //@   trusted
